@@ -102,7 +102,9 @@ func (c myCfg) policy() string {
 	return c.Policy
 }
 
-var myClasses = []string{"envelope-alpha", "envelope-bravo", "damaged-envelope", "garbage", "null", "empty"}
+// "short-garbage": a stored value shorter than every configured default, so that the value the
+// policy prescribes is LONGER than what the database sent (the row grows while it is rebuilt)
+var myClasses = []string{"envelope-alpha", "envelope-bravo", "damaged-envelope", "garbage", "short-garbage", "null", "empty"}
 var myShapes = []string{"c-alone", "c-after-d", "c-before-d", "two-rows-revealable-first", "two-rows-revealable-second", "c-aliased", "table-aliased"}
 var myReaders = map[string][]byte{"owner": fx.Alpha, "other-keys": fx.Bravo, "no-keys": fx.NoKeys}
 
@@ -274,6 +276,8 @@ func (w *myWorld) stored(class string, reader []byte, k int) (cell []byte, revea
 		return mycheck.Damage(w.envelope("c", c.Envelope, fx.Alpha, c.Type, k)), false
 	case "garbage":
 		return []byte("plain garbage \x00\xff, not an envelope"), false
+	case "short-garbage":
+		return []byte("g"), false
 	case "null":
 		return nil, false
 	case "empty":
@@ -504,7 +508,7 @@ func (w *myWorld) run(cs myCase) {
 			}
 			plain := myPlain(c.Type, e.k)
 			switch {
-			case !e.revealable && len(e.stored) > 0 && (bytes.Equal(v, plain) || bytes.Equal(v, myWire(c.Type, true, plain))) && e.class != "garbage":
+			case !e.revealable && len(e.stored) > 0 && (bytes.Equal(v, plain) || bytes.Equal(v, myWire(c.Type, true, plain))) && e.class != "garbage" && e.class != "short-garbage":
 				bad("revealed", "row %d: the value was revealed to a reader that must not get it", i)
 			case !e.revealable && bytes.Equal(v, e.stored) && policy != "ciphertext":
 				bad("policy-not-applied-ciphertext-delivered", "row %d: policy %s, but the stored bytes were delivered (announced type 0x%02x)", i, policy, got)
